@@ -33,7 +33,11 @@ impl Check for C01 {
         }
     }
 
-    fn generate(&self, g: &mut Xo, _tier: Tier, _run: u64) -> VmSc {
+    fn generate(&self, g: &mut Xo, _tier: Tier, run: u64) -> VmSc {
+        if run % 2500 == 1249 {
+            // a long execution of a looping program, compared with a model-only run at the end
+            return vmgen::gen_long(g);
+        }
         vmgen::gen_scenario(g, Bias::Balanced)
     }
 
